@@ -78,8 +78,52 @@ def high_offset_msg(rng, target_off):
     if k < 0 or k > 65535: return None
     m = msg_with([{'ty': 10, 'name': pad_owner, 'ttl': 0, 'cls': 1, 'f': [b'\0' * k]},
                   {'ty': 2, 'name': n, 'ttl': 0, 'cls': 1, 'f': [(b'ns',) + n]},
-                  {'ty': 5, 'name': (b'x',) + n, 'ttl': 0, 'cls': 1, 'f': [n]}])
+                  {'ty': 5, 'name': (b'x',) + n, 'ttl': 0, 'cls': 1, 'f': [n]},
+                  # names that share ONLY a deeper suffix of the straddling name (its later labels may lie
+                  # beyond offset 0x3FFF although the name itself starts below)
+                  {'ty': 1, 'name': (b'other',) + n[1:], 'ttl': 0, 'cls': 1, 'f': [b'\1\2\3\4']},
+                  {'ty': 15, 'name': (b'zzz',) + n[1:], 'ttl': 0, 'cls': 1, 'f': [10, (b'mx', b'ns') + n]}])
     return m
+
+def straddle_msg(target_off, labels=(b'aaaa', b'bbbb', b'cc', b'example')):
+    """a multi-label name that starts at `target_off` (so that its later labels sit at and beyond 0x4000 when the
+    offset is just below), followed by names that share each of its proper suffixes only"""
+    n = tuple(labels)
+    k = target_off - 12 - 3 - 10
+    if k < 0 or k > 65000: return None
+    rrs = [{'ty': 10, 'name': (b'p',), 'ttl': 0, 'cls': 1, 'f': [b'\0' * k]},
+           {'ty': 1, 'name': n, 'ttl': 0, 'cls': 1, 'f': [b'\1\2\3\4']}]
+    for i in range(1, len(n)):
+        rrs.append({'ty': 1, 'name': (b'w%d' % i,) + n[i:], 'ttl': 0, 'cls': 1, 'f': [b'\1\2\3\4']})
+        rrs.append({'ty': 2, 'name': (b'v%d' % i,) + n[i:], 'ttl': 0, 'cls': 1, 'f': [(b'u%d' % i,) + n[i:]]})
+    return msg_with(rrs)
+
+def nested_long_names(step=15, limit=255):
+    """progressively nested names growing to the 255-octet limit: with full compression the last ones are one
+    label plus a pointer chain of many hops whose EXPANDED length is at the limit"""
+    names = []; n = ()
+    i = 0
+    while True:
+        lab = bytes([97 + i % 26]) * step
+        cand = (lab,) + n
+        if name_wire_len(cand) > limit:
+            rem = limit - name_wire_len(n) - 1
+            if rem >= 1:
+                cand = (b'q' * rem,) + n
+                names.append(cand)
+            break
+        n = cand; names.append(n); i += 1
+    return names
+
+def split_long_name_msg(prefix_len, suffix_total):
+    """question 1: a literal name of `suffix_total` wire octets; question 2: one label of prefix_len octets then a
+    pointer to question 1's name: expands to prefix_len + 1 + suffix_total octets"""
+    n = long_name(suffix_total)
+    b = bytearray(b'\0\1\1\0\0\2' + b'\0' * 6)
+    for l in n: b.append(len(l)); b += l
+    b += b'\0\0\1\0\1'
+    b.append(prefix_len); b += b'p' * prefix_len; b += b'\xc0\x0c' + b'\0\1\0\1'
+    return bytes(b)
 
 # ---------------------------------------------------------------- C01
 
@@ -176,6 +220,15 @@ def C02(tier, rng):
         if m:
             b, _ = render(m, Layout(rng, compress=1.0))
             cs.append(Case('rt.dns %s' % hx(b), 'hioff'))
+        m = straddle_msg(off)
+        if m:
+            b, _ = render(m, Layout(rng, compress=rng.choice([0.0, 1.0])))
+            cs.append(Case('rt.dns %s' % hx(b), 'straddle'))
+    for step in (9, 15, 30):
+        names = nested_long_names(step)
+        m = msg_with([{'ty': 2, 'name': n, 'ttl': 0, 'cls': 1, 'f': [n]} for n in names])
+        b, _ = render(m, Layout(random.Random(step), compress=1.0))
+        cs.append(Case('rt.dns %s' % hx(b), 'nested-long'))
     return cs
 
 def nested_owner_msg(k):
@@ -215,6 +268,10 @@ def C03(tier, rng):
         for l in n: r.out.append(len(l)); r.out += l
         r.out += b'\0\0\1\0\1'
         cs.append(Case('dec.dns %s' % hx(bytes(r.out)), 'name%d' % total))
+    for pl in (1, 2, 10, 62, 63):
+        for tot in range(250 - pl, 262 - pl):
+            if tot >= 1: cs.append(Case('dec.dns %s' % hx(split_long_name_msg(pl, tot)), 'split-long'))
+    cs.append(Case('dec.dns %s' % hx(split_long_name_msg(63, 255)), 'split-long'))
     for b in corpus_vectors():
         cs += dec_all_entries(b, 'corpus')
     cs += single_rr_cases(rng, sz(tier, 2000, 20000))
@@ -278,6 +335,22 @@ def C04(tier, rng):
         if m:
             b, _ = render(m, Layout(rng, compress=1.0))
             cs.append(Case('dec.dns %s' % hx(b), 'hioff', exp=abs_msg_text(m)))
+    # names at the 255-octet limit reached through many hops (compressed layouts of nested long names)
+    for step in (5, 9, 15, 20, 30, 62):
+        names = nested_long_names(step)
+        m = msg_with([{'ty': 2, 'name': n, 'ttl': 0, 'cls': 1, 'f': [n]} for n in names], qs=[{'name': names[-1], 'qtype': 1, 'qclass': 1}])
+        for comp in (1.0, 0.7):
+            b, _ = render(m, Layout(random.Random(step), compress=comp))
+            cs.append(Case('dec.dns %s' % hx(b), 'nested-long', exp=abs_msg_text(m)))
+    for pl in range(1, 64, 7):
+        for tot in (255 - pl - 1, 254 - pl - 1):
+            if tot >= 1:
+                cs.append(Case('dec.dns %s' % hx(split_long_name_msg(pl, tot)), 'split-long', exp='ACCEPT'))
+    for off in range(0x3FFF - 20, 0x3FFF + 2, sz(tier, 3, 1)):
+        m = straddle_msg(off)
+        if m:
+            b, _ = render(m, Layout(rng, compress=1.0))
+            cs.append(Case('dec.dns %s' % hx(b), 'straddle', exp=abs_msg_text(m)))
     # big messages up to the 65,535 limit
     for total in sz(tier, [60000, 65535], [16384, 32768, 60000, 65000, 65534, 65535]):
         k = total - 12 - 3 - 10
